@@ -157,7 +157,11 @@ def _case(draw):
         # two reports from one Rst object: figures matter more often (the earlier report's
         # figures must still be written although the Rst object was reused in between)
         full = draw(st.sampled_from([False, False, True]))
-    return {'root': root, 'full': full, 'fresh': fresh, 'prev': prev}
+    case = {'root': root, 'full': full, 'fresh': fresh, 'prev': prev}
+    if full and draw(st.integers(0, 2)) == 0:
+        # figures written by a pool of subprocesses (RstTestReportTask with --workers)
+        case['workers'] = draw(st.sampled_from([1, 2, 4]))
+    return case
 
 
 def strategy(tier):
@@ -416,6 +420,23 @@ def _expect_rejection(mod):
     return False, False, 'plain'
 
 
+class _AllowChildren:
+    """FormattedRst.write(n_workers=N) starts a multiprocessing pool; the shards of this
+    framework are daemonic pool workers, which may not have children.  The flag is lifted for
+    the duration of the call (harness process only)."""
+    def __enter__(self):
+        import multiprocessing as mp
+        self.conf = mp.current_process()._config
+        self.old = self.conf.get('daemon')
+        self.conf['daemon'] = False
+
+    def __exit__(self, *exc):
+        if self.old is None:
+            self.conf.pop('daemon', None)
+        else:
+            self.conf['daemon'] = self.old
+
+
 def run_case(case):
     out = Outcome()
     mod = _model(case['root'])
@@ -441,7 +462,9 @@ def run_case(case):
         target = os.path.join(tmp, 'out', 'report') if case['fresh'] else os.path.join(tmp, 'out')
         if not case['fresh']:
             os.mkdir(target)
-        rst = Rst(Representation(representer))
+        rst = Rst(Representation(representer), n_workers=case.get('workers'))
+        if case.get('workers'):
+            out.labels.append('parallel-figure-writer')
         prev_fmt = None
         if prev is not None:
             # an earlier report formatted by the same Rst object; it is written last
@@ -450,7 +473,8 @@ def run_case(case):
         crashed = None
         try:
             fmt = rst.format_report(report=report, author='verif', version='0.1')
-            fmt.write(target)
+            with _AllowChildren():
+                fmt.write(target)
         except ValueError as exc:
             rejected = exc
         except Exception as exc:   # noqa: BLE001 -- the property allows no other exception
@@ -468,7 +492,8 @@ def run_case(case):
             # the earlier report must be unaffected by the later one
             target2 = os.path.join(tmp, 'out-earlier')
             try:
-                prev_fmt.write(target2)
+                with _AllowChildren():
+                    prev_fmt.write(target2)
             except Exception as exc:   # noqa: BLE001 -- nothing may be raised for this tree
                 out.failures.append(exc_failure('C20/earlier_report_raises', exc))
             else:
